@@ -510,16 +510,19 @@ def main(argv=None):
         ev = sum(r["evaluations"] for r in rs)
         nt = len({d for r in rs for d in r["nontrivial"]}) + sum(r["nontrivial_count_extra"] for r in rs)
         print(f"[{pid}] {s.name}: evaluations={ev} nontrivial={nt} wall={max([r['wall_s'] for r in rs] or [0]):.1f}s")
-    if harness_errors:
-        for h in harness_errors:
-            print("HARNESS-ERROR", h, file=sys.stderr)
-        print(f"HARNESS-ERROR property={pid} ({len(harness_errors)} problem(s), see stderr)")
-        return 2
+    for h in harness_errors:
+        print("HARNESS-ERROR", h, file=sys.stderr)
     if out_lines:
+        # confirmed, replayable violations take precedence over inconclusive parts of the same run
         for path, sub_name, vio in out_lines:
             print(f"[{pid}] {sub_name}: {vio['kind']}: {vio['detail'][:300]}")
             print(f"VIOLATION property={pid} replay={path}")
+        if harness_errors:
+            print(f"[{pid}] note: {len(harness_errors)} further problem(s) were inconclusive (see stderr)")
         return 1
+    if harness_errors:
+        print(f"HARNESS-ERROR property={pid} ({len(harness_errors)} problem(s), see stderr)")
+        return 2
     print(f"[{pid}] OK tier={args.tier} seed={seed} regressions={n_reg} wall={wall:.1f}s")
     return 0
 
